@@ -264,23 +264,57 @@ def run_and_judge(ctx, programs, trace_cfg, trace_tla, name, chunks=None, profil
     build_harness(profile)
     t_start = time.time()
 
-    def one(idx):
-        pout, n = exec_programs(ctx, pieces[idx], f"{name}.{idx}", profile)
-        res = judge_file(trace_cfg, trace_tla, pout, prop, timeout=timeout, env=env)
+    def judge_progs(progs, tag, depth=0):
+        """Execute and judge a list of programs; returns (events, generated, fails).  If TLC cannot evaluate the trace
+        specification on the recorded execution (an evaluation error, not a parse error), the list is split until the
+        offending program is isolated, and that program is reported as a failure of the property being judged: an
+        execution the specification cannot even follow is not an execution the specification allows."""
+        pout, n = exec_programs(ctx, progs, tag, profile)
+        try:
+            res = judge_file(trace_cfg, trace_tla, pout, prop, timeout=timeout, env=env)
+        except ToolError as e:
+            msg = str(e)
+            evaluation = ("TLC error in" in msg and "Parsing or semantic" not in msg) or "trace not accepted" in msg
+            if not evaluation or depth > 6:
+                raise
+            if len(progs) == 1:
+                short = re.sub(r"\s+", " ", msg)[:300]
+                return n, 0, [{"prop": prop, "run": 1, "what": "specification_cannot_follow_execution",
+                               "sig": "judge/" + os.path.basename(trace_tla) + "/cannot_follow", "detail": short,
+                               "_program": progs[0], "_profile": profile,
+                               "_trace": [os.path.basename(trace_cfg), os.path.basename(trace_tla)]}]
+            k = min(8, len(progs))
+            tot_n, tot_g, fl = 0, 0, []
+            for j in range(k):
+                sub = progs[j::k]
+                a, b, c = judge_progs(sub, f"{tag}_{j}", depth + 1)
+                tot_n += a
+                tot_g += b
+                fl += c
+            return tot_n, tot_g, fl
+        finally:
+            if not keep:
+                for suffix in (".prog.ndjson", ".events.ndjson"):
+                    try:
+                        os.remove(ctx.path(f"{tag}{suffix}"))
+                    except OSError:
+                        pass
         for f in res.fails:
-            # attach the program that produced the failing event
             run = f.get("run", -1)
-            if isinstance(run, int) and 1 <= run <= len(pieces[idx]):
-                f["_program"] = pieces[idx][run - 1]
+            if isinstance(run, int) and 1 <= run <= len(progs):
+                f["_program"] = progs[run - 1]
             f["_profile"] = profile
             f["_trace"] = [os.path.basename(trace_cfg), os.path.basename(trace_tla)]
-        if not keep:
-            for suffix in (".prog.ndjson", ".events.ndjson"):
-                try:
-                    os.remove(ctx.path(f"{name}.{idx}{suffix}"))
-                except OSError:
-                    pass
-        return n, res
+        return n, res.generated, res.fails
+
+    class _R:
+        pass
+
+    def one(idx):
+        n, g, fl = judge_progs(pieces[idx], f"{name}.{idx}")
+        r = _R()
+        r.generated, r.fails = g, fl
+        return n, r
 
     fails = []
     with cf.ThreadPoolExecutor(max_workers=chunks) as ex:
